@@ -6,6 +6,7 @@ message headers and messages.
 """
 from ._base import Message, MessageHeader, DefinedMessage, UndefinedMessage
 from .avp import Avp, AvpGrouped
+from .avp.errors import AvpDecodeError
 
 
 def _dump_avps(avp_list: list[Avp], indent: str = "") -> str:
@@ -14,7 +15,12 @@ def _dump_avps(avp_list: list[Avp], indent: str = "") -> str:
     for single_avp in avp_list:
         if isinstance(single_avp, AvpGrouped):
             s += f"{indent}{str(single_avp)}\n"
-            s += _dump_avps(single_avp.value, indent)
+            try:
+                members = single_avp.value
+            except AvpDecodeError:
+                # shown without members, like `str()` shows it without value
+                continue
+            s += _dump_avps(members, indent)
         else:
             s += f"{indent}{str(single_avp)}\n"
 
